@@ -211,6 +211,7 @@ theorem dropInactive_both {s s' : State} {pid : Nat} (hb : Both s) (hi : Inv s) 
   obtain ⟨t, ht⟩ := hq
   obtain ⟨p0, hp0, hst0, _⟩ := hb.q.inactSound t pid ht
   unfold dropInactive at h
+  simp only [refundRun_eq, burnRun_eq] at h
   rw [hp0] at h
   simp only at h
   have b1 : Both { s with props := dropProp s.props pid, inactive := removeQ (p0.depositEnd, pid) s.inactive,
@@ -234,6 +235,7 @@ theorem finishTally_both {s s' : State} {pid : Nat} {p : Proposal} {passes burn 
     (h : finishTally passes burn res p pid s = .ok s') : Both s' := by
   have hpid : p.id = pid := findProp_id hp
   unfold finishTally at h
+  simp only [refundRun_eq, burnRun_eq] at h
   simp only [hsh, Bool.not_true, Bool.false_and, Bool.false_eq_true, if_false] at h
   simp only [hsh, if_true] at h
   -- the settlement keeps props, queues and votes
@@ -353,6 +355,7 @@ theorem dropInactive_tot {s : State} {id : Nat} (h1 : inactiveSettleShapeOk = tr
   obtain ⟨t, ht⟩ := hq
   obtain ⟨p0, hp0, _, _⟩ := ha.both.q.inactSound t id ht
   unfold dropInactive
+  simp only [refundRun_eq, burnRun_eq]
   simp only [hp0, h1, if_true]
   split
   · exact refundDeposits_total (by simpa using ha.inv.bal)
@@ -369,6 +372,7 @@ theorem dropInactive_step {s s' : State} {id : Nat} (h1 : inactiveSettleShapeOk 
   refine ⟨t', ?_⟩
   have hia : s'.inactive = removeQ (p0.depositEnd, id) s.inactive := by
     unfold dropInactive at hs'
+    simp only [refundRun_eq, burnRun_eq] at hs'
     simp only [hp0, h1, if_true] at hs'
     split at hs'
     · exact (refundDeposits_spec (by simpa using ha.inv.bal) hs').2.2.2.1
@@ -380,6 +384,7 @@ theorem dropInactive_step {s s' : State} {id : Nat} (h1 : inactiveSettleShapeOk 
 theorem finishTally_tot {s : State} (h2 : settleShapeOk = true) (hb : s.gov = sumAmt s.deps) (passes burn : Bool)
     (res : Nat × Nat × Nat × Nat) (p : Proposal) (pid : Nat) : ∃ s', finishTally passes burn res p pid s = .ok s' := by
   unfold finishTally
+  simp only [refundRun_eq, burnRun_eq]
   simp only [h2, Bool.not_true, Bool.false_and, Bool.false_eq_true, if_false]
   simp only [h2, if_true]
   by_cases hk : (p.expedited && !passes) = true
@@ -436,6 +441,7 @@ theorem tallyOne_step {s s' : State} {stk : Staking} {id : Nat} (h2 : settleShap
       intro id' hne ⟨t', ht'⟩
       refine ⟨t', ?_⟩
       unfold finishTally at hs'
+      simp only [refundRun_eq, burnRun_eq] at hs'
       simp only [h2, Bool.not_true, Bool.false_and, Bool.false_eq_true, if_false] at hs'
       simp only [h2, if_true] at hs'
       have settle : ∀ s1 : State,
